@@ -23,7 +23,7 @@ pub fn property() -> Property {
                 name: "incremental",
                 quick: 3_000,
                 thorough: 100_000,
-                single_shard: false,
+                single_shard: false, supplementary: false,
                 run: |cfg| run_part(cfg, gen::raw_playout(200), |r| gen::play(r, ClockDomain::Board).to_game(), check_incremental),
                 replay: |v| replay_case::<Game, _>(v, check_incremental),
             },
@@ -31,7 +31,7 @@ pub fn property() -> Property {
                 name: "same_key",
                 quick: 3_000,
                 thorough: 100_000,
-                single_shard: false,
+                single_shard: false, supplementary: false,
                 run: |cfg| run_part(cfg, gen::raw_playout(120), |r| gen::play(r, ClockDomain::Board).to_game(), check_same_key),
                 replay: |v| replay_case::<Game, _>(v, check_same_key),
             },
@@ -39,7 +39,7 @@ pub fn property() -> Property {
                 name: "single_component",
                 quick: 10_000,
                 thorough: 1_000_000,
-                single_shard: false,
+                single_shard: false, supplementary: false,
                 run: |cfg| run_part(cfg, gen::raw_pos(80), |r| PosCase { fen: gen::position(r, ClockDomain::Keep).fen() }, check_single_component),
                 replay: |v| replay_case::<PosCase, _>(v, check_single_component),
             },
@@ -47,7 +47,7 @@ pub fn property() -> Property {
                 name: "key_material",
                 quick: 1,
                 thorough: 1,
-                single_shard: true,
+                single_shard: true, supplementary: false,
                 run: |cfg| run_exhaustive(cfg, std::iter::once(KeyMaterialCase {}), check_key_material),
                 replay: |v| replay_case::<KeyMaterialCase, _>(v, check_key_material),
             },
